@@ -38,9 +38,9 @@
 (***************************************************************************)
 EXTENDS Wire, Config, App, TLC
 
-VARIABLES cfg, tcb, ck, ckx, viol, kf, last, groups, pairs, byck, coll
+VARIABLES cfg, tcb, ck, ckx, viol, kf, last, groups, pairs, byck, coll, fmt
 
-svars == << cfg, tcb, ck, ckx, viol, kf, last, groups, pairs, byck, coll >>
+svars == << cfg, tcb, ck, ckx, viol, kf, last, groups, pairs, byck, coll, fmt >>
 
 (* Known deviations of the implementation (KNOWN_FINDINGS.txt), as keys *)
 CONSTANT KnownKeys
@@ -397,6 +397,23 @@ FieldOK(printed, verb, mine, others) ==
     \/ printed = mine
     \/ verb = "send" /\ printed \in others
 
+(* Which fields a log format prints is its own business, but it is one format: a field that  *)
+(* events of a layer have carried before (under this configuration) is not silently left out *)
+(* of a later event of that layer.  fmt remembers << layer, field >>.                        *)
+FieldsPrinted(log) ==
+    UNION { { << log[i].layer, f >> : f \in
+                { x \in { "ms", "md", "is", "id", "ps", "pd" } :
+                    CASE x = "ms" -> log[i].ms # << >>  [] x = "md" -> log[i].md # << >>
+                      [] x = "is" -> log[i].is # << >>  [] x = "id" -> log[i].id # << >>
+                      [] x = "ps" -> log[i].ps # -1     [] x = "pd" -> log[i].pd # -1 } }
+            : i \in { j \in 1..Len(log) : log[j].bad = 0 } }
+Present(ev) ==     \* judged for the fields that belong to the event's own layer (addresses from layer 3 on, ports at layer 4)
+    /\ (ev.ms = << >> => << ev.layer, "ms" >> \notin fmt) /\ (ev.md = << >> => << ev.layer, "md" >> \notin fmt)
+    /\ (ev.layer # "eth" =>
+          /\ (ev.is = << >> => << ev.layer, "is" >> \notin fmt) /\ (ev.id = << >> => << ev.layer, "id" >> \notin fmt))
+    /\ (ev.layer \in { "tcp", "udp" } =>
+          /\ (ev.ps = -1 => << ev.layer, "ps" >> \notin fmt) /\ (ev.pd = -1 => << ev.layer, "pd" >> \notin fmt))
+
 LogFieldsOK(b, obs, ev) ==
     LET r == obs.rep
         hasRep == obs.kind = "reply" /\ Len(r) >= 14
@@ -475,7 +492,7 @@ LogOK(b, obs, o) ==
                  i = 0 \/ (log[i].verb = "send") = (obs.kind = "reply"))
           ELSE {})
     \cup V("C20", "printed-fields-are-the-frames",
-           \A i \in 1..Len(log) : log[i].bad = 1 \/ LogFieldsOK(b, obs, log[i]))
+           \A i \in 1..Len(log) : log[i].bad = 1 \/ (LogFieldsOK(b, obs, log[i]) /\ Present(log[i])))
 
 (***************************************************************************)
 (* Judge: every clause violated by observation obs of frame b              *)
@@ -749,7 +766,7 @@ EmptyFn == [ x \in {} |-> 0 ]
 Init(c) ==
     /\ cfg = c /\ tcb = EmptyFn /\ ck = EmptyFn /\ ckx = {}
     /\ viol = {} /\ kf = {} /\ last = "init" /\ groups = EmptyFn /\ pairs = EmptyFn
-    /\ byck = EmptyFn /\ coll = EmptyFn
+    /\ byck = EmptyFn /\ coll = EmptyFn /\ fmt = {}
 
 (* Known findings: a violated clause is attributed to a listed deviation   *)
 (* only if it falls in that deviation's specific class.                    *)
@@ -795,14 +812,15 @@ Handle(b, obs) ==
     /\ pairs' = AfterPairs(b, obs)
     /\ byck' = AfterByck(b, obs)
     /\ coll' = AfterColl(b, obs)
+    /\ fmt' = fmt \cup FieldsPrinted(obs.log)
     /\ UNCHANGED cfg
 
 Reconfigure(c) ==
     /\ cfg' = c /\ tcb' = EmptyFn /\ ck' = EmptyFn /\ ckx' = {}
     /\ viol' = {} /\ kf' = {} /\ last' = "reconfigure" /\ groups' = EmptyFn /\ pairs' = EmptyFn
-    /\ byck' = EmptyFn /\ UNCHANGED coll
+    /\ byck' = EmptyFn /\ fmt' = {} /\ UNCHANGED coll
 
 ResetTable ==
     /\ tcb' = EmptyFn /\ viol' = {} /\ kf' = {} /\ last' = "reset"
-    /\ UNCHANGED << cfg, ck, ckx, groups, pairs, byck, coll >>
+    /\ UNCHANGED << cfg, ck, ckx, groups, pairs, byck, coll, fmt >>
 =============================================================================
